@@ -155,6 +155,10 @@ func (ch *serverChannel) Request(ctx async.Context) (prpc.Request, status.Status
 // The message is valid until the next call to Receive/ReceiveAsync.
 func (ch *serverChannel) Receive(ctx async.Context) ([]byte, status.Status) {
 	for {
+		// Get the wait channel before reading, otherwise a message received
+		// in between can be missed.
+		wait := ch.ReceiveWait()
+
 		msg, ok, st := ch.ReceiveAsync(ctx)
 		switch {
 		case !st.OK():
@@ -166,7 +170,7 @@ func (ch *serverChannel) Receive(ctx async.Context) ([]byte, status.Status) {
 		select {
 		case <-ctx.Wait():
 			return nil, ctx.Status()
-		case <-ch.ReceiveWait():
+		case <-wait:
 		}
 	}
 }
